@@ -5,5 +5,6 @@ From CB Require Import Crypto.Wnaf.
 From CB Require Import Crypto.Shamir.
 From CB Require Import Crypto.ScalarCodec.
 From CB Require Import Crypto.Paths.
+From CB Require Import Crypto.G1Decode.
 Extraction "c20_model.ml" wnaf zr_multiexp zr_share zr_reveal zr_reveal_in_group zr_lagrange
-  scalar_encode scalar_decode scalar_encode_le scalar_decode_le bls_scalar_from_bytes ed_scalar_from_bytes keygen_round bls_r ed_l path_of.
+  scalar_encode scalar_decode scalar_encode_le scalar_decode_le bls_scalar_from_bytes ed_scalar_from_bytes keygen_round bls_r ed_l path_of g1_decode g1_encode.
